@@ -4,6 +4,9 @@
    output line: per category five characters 1/0 (message types in QtMsgType numeric order:
                 debug warning critical fatal info), categories separated by ',' — the format of
                 harness/h_category.
+   with a further field <ci>:<ti>[,...] (query sequence: category index, type index) the output is one
+   character per query, in that order (the model's verdict does not depend on the order); in mode oracle
+   the verdict field then comes fourth and holds one character per query.
    modes (argv[1]): model  = category_filter src_cfg (default)
                     spec   = spec_verdict (the specification function)
                     legacy = the model with "^...$" line semantics (classification of LF failures)
@@ -28,6 +31,31 @@ let () =
     (match String.split_on_char ' ' line with
      | r :: _ when mode = "rules" -> print_endline (show_rules (model_rules (unhex r)))
      | r :: _ when mode = "srules" -> print_endline (show_rules (spec_rules (unhex r)))
+     | [r; cs; qs; vs] when mode = "oracle" ->
+       let rules = unhex r in
+       let cats = Array.of_list (List.map unhex (String.split_on_char ',' cs)) in
+       let b = Buffer.create 64 in
+       List.iteri (fun k q ->
+         match String.split_on_char ':' q with
+         | [ci; ti] ->
+           let ci = int_of_string ci and ti = int_of_string ti in
+           Buffer.add_char b (if ci < Array.length cats && ti < 5 && k < String.length vs
+                                 && (vs.[k] = '0' || vs.[k] = '1')
+                                 && prop_c15_b rules cats.(ci) (List.nth types ti) (vs.[k] = '1') then '1' else '0')
+         | _ -> Buffer.add_char b '0') (String.split_on_char ',' qs);
+       print_endline (Buffer.contents b)
+     | [r; cs; qs] when mode <> "oracle" && String.contains qs ':' ->
+       let rules = unhex r in
+       let cats = Array.of_list (List.map unhex (String.split_on_char ',' cs)) in
+       let f = match mode with "spec" -> spec_verdict | "legacy" -> legacy_verdict | _ -> model_verdict in
+       let b = Buffer.create 64 in
+       List.iter (fun q ->
+         match String.split_on_char ':' q with
+         | [ci; ti] ->
+           let ci = int_of_string ci and ti = int_of_string ti in
+           Buffer.add_char b (if ci < Array.length cats && ti < 5 then (if f rules cats.(ci) (List.nth types ti) then '1' else '0') else '?')
+         | _ -> Buffer.add_char b '?') (String.split_on_char ',' qs);
+       print_endline (Buffer.contents b)
      | [r; cs; vs] when mode = "oracle" ->
        let rules = unhex r in
        let cats = String.split_on_char ',' cs and vl = String.split_on_char ',' vs in
